@@ -298,15 +298,26 @@ pub fn flate_decode(data: &[u8], params: &LZWFlateParams) -> Result<Vec<u8>> {
 
 /// Undo the prediction described by `params` (shared by FlateDecode and LZWDecode).
 fn unpredict(decoded: Vec<u8>, params: &LZWFlateParams) -> Result<Vec<u8>> {
+    if params.predictor < 2 {
+        return Ok(decoded);
+    }
     let predictor = params.predictor as usize;
-    let n_components = params.n_components as usize;
-    let bits_per_component = params.bits_per_component as usize;
-    let columns = params.columns as usize;
+    // the geometry comes from the file: refuse values that are not positive or overflow
+    let positive = |v: i32| usize::try_from(v).ok().filter(|&v| v > 0);
+    let (n_components, bits_per_component, columns) = match (positive(params.n_components), positive(params.bits_per_component), positive(params.columns)) {
+        (Some(n), Some(b), Some(c)) => (n, b, c),
+        _ => bail!("invalid predictor parameters {:?}", params)
+    };
     // a row holds `columns` pixels of `n_components` samples of `bits_per_component` bits,
     // padded to a whole byte; PNG filters work on bytes at the distance of one (rounded-up) pixel
-    let bits_per_pixel = n_components * bits_per_component;
+    let bits_per_pixel = n_components.checked_mul(bits_per_component).ok_or_else(|| other!("predictor parameters too large"))?;
     let bytes_per_pixel = (bits_per_pixel + 7) / 8;
-    let stride = (columns * bits_per_pixel + 7) / 8;
+    let stride = columns.checked_mul(bits_per_pixel).and_then(|bits| bits.checked_add(7)).ok_or_else(|| other!("predictor parameters too large"))? / 8;
+    let row_len = if predictor >= 10 { stride + 1 } else { stride };
+    if row_len > decoded.len() {
+        // not even one complete row (also keeps the row buffers below proportional to the data)
+        return Ok(if predictor >= 10 { Vec::new() } else { decoded });
+    }
 
     if predictor == 2 {
         // TIFF predictor 2: every sample is stored as the difference to the sample of the same
